@@ -65,7 +65,7 @@ Fixpoint contains_ci (p s : str) : bool :=
 (* ---- expressions ---- *)
 Inductive ident : Type :=
 | IAccount | IPayee | ICode | INote | IAmount | IDate
-| ICleared | IPending | IVirtual | IReal.
+| ICleared | IPending | IVirtual | IReal | IUncleared | IActual.
 
 Inductive cmpop : Type := CEq | CLt | CLe | CGt | CGe.
 
@@ -103,6 +103,8 @@ Definition eval_ident (i : ident) (p : posting) : value :=
   | IPending => VBool (match p_state p with SPending => true | _ => false end)
   | IVirtual => VBool (p_virtual p)
   | IReal    => VBool (negb (p_virtual p))
+  | IUncleared => VBool (match p_state p with SUncleared => true | _ => false end)
+  | IActual  => VBool true     (* item.cc get_actual: journal postings are neither generated nor temporary *)
   end.
 
 (* ---- value_t::operator bool (value.cc:83-129).  An amount is true when it is not zero;
@@ -250,6 +252,87 @@ Definition report_posts (limits : list expr) (l : list posting) : res (list post
   | Some e => filter_posts e l
   end.
 
+(* ---- the sources of the limit predicate (report.h).  Every one of them calls
+   limit_.on(whence, TEXT); option_t::on (option.h:150-160) runs the limit_ handler
+   (report.h:747-752: `if (handled) value = "(" + value + ")&(" + str + ")"`) and, when the
+   handler left the value alone (the first contribution), assigns TEXT.  So the accumulated
+   predicate is the left-nested conjunction of the contributions in the order they were made. ---- *)
+Definition limit_on (acc : option expr) (e : expr) : option expr :=
+  match acc with
+  | None => Some e                 (* not handled yet: value = str *)
+  | Some v => Some (EAnd v e)      (* (value)&(str) *)
+  end.
+
+Definition limit_acc (l : list expr) : option expr := fold_left limit_on l None.
+
+(* the text the handler builds, from the pieces the translator reads out of report.h
+   (Gen/LimitCombine.v): tag 0 = a literal, 1 = the old value, 2 = the new condition *)
+Fixpoint limit_text (pieces : list (Z * str)) (value cond : str) : str :=
+  match pieces with
+  | [] => []
+  | (tag, lit) :: t =>
+      (if tag =? 0 then lit else if tag =? 1 then value else if tag =? 2 then cond else [])
+        ++ limit_text t value cond
+  end.
+
+Inductive contrib : Type :=
+| KLimit (e : expr)                    (* --limit EXPR *)
+| KBegin (txt : str) (d : Z)           (* -b D : date>=[D]            report.h:446-456 *)
+| KEnd (txt : str) (d : Z)             (* -e D : date<[D]             report.h:658-672 *)
+| KCleared                             (* -C : cleared                report.h:495-497 *)
+| KUncleared                           (* -U : uncleared|pending      report.h:1046-1048 *)
+| KPending                             (* --pending : pending         report.h:847-849 *)
+| KReal                                (* -R : real                   report.h:918-920 *)
+| KActual                              (* -L : actual                 report.h:395-397 *)
+| KCurrent (txt : str).                (* -c : date<=today            report.h:543-545 *)
+
+(* `today` (report.h:214-216 fn_today) is report_t::terminus, which --now sets (report.h:794-797)
+   and which every -e / --end overwrites with its date (report.h:667): the last one given wins *)
+Definition today_of (now : Z) (opts : list contrib) : Z :=
+  fold_left (fun t k => match k with KEnd _ d => d | _ => t end) opts now.
+
+Definition contrib_expr (today : Z) (k : contrib) : expr :=
+  match k with
+  | KLimit e => e
+  | KBegin txt d => begin_pred txt d
+  | KEnd txt d => end_pred txt d
+  | KCleared => EIdent ICleared
+  | KUncleared => EOr (EIdent IUncleared) (EIdent IPending)
+  | KPending => EIdent IPending
+  | KReal => EIdent IReal
+  | KActual => EIdent IActual
+  | KCurrent txt => ECmp CLe (EIdent IDate) (EConst txt (VDate today))
+  end.
+
+Definition is_begin (k : contrib) : bool := match k with KBegin _ _ => true | _ => false end.
+Definition is_end (k : contrib) : bool := match k with KEnd _ _ => true | _ => false end.
+
+(* report_t::normalize_period (report.cc:272-292), after all options: the bounds of the -p period
+   (as the period parser resolves the joined -p texts) become limits unless -b / -e was given *)
+Definition period_limits (opts : list contrib) (period : option (str * Z) * option (str * Z)) : list expr :=
+  (match fst period with
+   | Some (txt, d) => if existsb is_begin opts then [] else [begin_pred txt d]
+   | None => []
+   end) ++
+  (match snd period with
+   | Some (txt, d) => if existsb is_end opts then [] else [end_pred txt d]
+   | None => []
+   end).
+
+(* options in command-line order, then the period, then the command-line query
+   (report.cc:294-300 parse_query_args runs when the command executes) *)
+Definition all_limits (now : Z) (opts : list contrib) (period : option (str * Z) * option (str * Z))
+           (query : option expr) : list expr :=
+  map (contrib_expr (today_of now opts)) opts ++ period_limits opts period ++
+  match query with Some q => [q] | None => [] end.
+
+Definition report_with (now : Z) (opts : list contrib) (period : option (str * Z) * option (str * Z))
+           (query : option expr) (l : list posting) : res (list posting) :=
+  match limit_acc (all_limits now opts period query) with
+  | None => Ok l
+  | Some e => filter_posts e l
+  end.
+
 (* ---- op_t::print of this fragment, in the shape the query parser's tree prints ---- *)
 Definition ident_name (i : ident) : str :=
   match i with
@@ -263,6 +346,8 @@ Definition ident_name (i : ident) : str :=
   | IPending => [112;101;110;100;105;110;103]
   | IVirtual => [118;105;114;116;117;97;108]
   | IReal    => [114;101;97;108]
+  | IUncleared => [117;110;99;108;101;97;114;101;100]
+  | IActual  => [97;99;116;117;97;108]
   end.
 
 Definition cmp_name (op : cmpop) : str :=
